@@ -212,6 +212,7 @@ def generate(tier, rng):
             yield 'WR %s %d 0 %s %d %d %s %d %s' % ('s' if signed else 'u', n, op, max(lo, min(hi, a)), max(lo, min(hi, b)),
                                                  's' if sr else 'u', nr, rng.choice(['out', 'out', 'npout', 'config']))
     yield from gen_WQ(tier, rng)
+    yield from gen_WQ_aligned(tier, rng)
 
 
 def gen_WQ(tier, rng):
@@ -248,6 +249,38 @@ def gen_WQ(tier, rng):
         a = max(lox, min(hix, big(lox, hix))); b = max(loy, min(hiy, big(loy, hiy)))
         yield 'WQ %s %d %d %s %d %d %s %d %d %s %d %d %s %s' % ('s' if sx else 'u', nx, fx, 's' if sy else 'u', ny, fy, op, a, b,
                                                                  's' if sr else 'u', nr, fr, rng.choice(ROUNDS), route)
+
+
+def gen_WQ_aligned(tier, rng):
+    # sums and differences whose wider *aligned* operand has exactly 52..55 or 62..65 bits (where the library changes carrier:
+    # float64 for mixed signedness, int64, python integers), operands at the top of their range, odd sums included
+    for _ in range(1500 if tier == 'quick' else 30000):
+        W = rng.choice([52, 53, 53, 54, 54, 55, 62, 63, 64, 65])
+        nx = rng.randint(max(2, W - 30), min(52, W))
+        d = W - nx
+        fx = rng.randint(0, min(nx, 12))
+        fy = fx + d
+        if fy > 52:
+            continue
+        ny = rng.randint(max(fy, 2), 52)
+        sx, sy = rng.random() < 0.5, rng.random() < 0.5
+        if rng.random() < 0.5:
+            sx, sy = False, True
+        op = rng.choice(['add', 'sub'])
+        sr = True
+        fr = rng.choice([fy, fy, fx, rng.randint(0, fy)])
+        nr = rng.choice([16, 24, 32, 40, 52])
+        ie = max(nx - fx, ny - fy) + 1
+        if ie > 52 or ie + fr > 61 or fr > nr + 8:
+            continue
+        lox, hix = lims(sx, nx); loy, hiy = lims(sy, ny)
+        a = rng.choice([hix, hix - rng.randint(0, 64), lox + rng.randint(0, 64) if sx else hix - rng.randint(0, 1 << 20), rng.randint(hix >> 1, hix)])
+        b = rng.choice([hiy, loy, hiy - rng.randint(0, 64), loy + rng.randint(0, 64), rng.randint(loy, hiy), rng.randint(hiy >> 1, hiy) | 1])
+        a = max(lox, min(hix, a)); b = max(loy, min(hiy, b))
+        if rng.random() < 0.5:
+            sx, nx, fx, a, sy, ny, fy, b = sy, ny, fy, b, sx, nx, fx, a
+        yield 'WQ %s %d %d %s %d %d %s %d %d %s %d %d %s %s' % ('s' if sx else 'u', nx, fx, 's' if sy else 'u', ny, fy, op, a, b,
+                                                                 's' if sr else 'u', nr, fr, rng.choice(ROUNDS), rng.choice(['out', 'npout', 'config']))
 
 
 def nontrivial(full_line, model):
